@@ -127,9 +127,9 @@ def selection_function(lim):
                 used = sub.args[1].id
             if used in made_by:
                 for cand in members[made_by[used]]:
-                    found[cand[0]] = cand
+                    found[cand[0]] = cand + ('role',)
     for cand in functions_calling(lim, ('nanargmin', 'argmin')):
-        found.setdefault(cand[0], cand)
+        found.setdefault(cand[0], cand + ('kernel',))
     return sorted(found.values(), key=lambda c: c[0])
 
 
@@ -234,13 +234,20 @@ def argmin_table(ctx):
         return None, out
 
     judged = 0
-    for qual, node, owner in cands:
+    for qual, node, owner, how in cands:
         where = lim.where(node)
         # what the function returns for a table of numbers only tells how it names a row of a column: by the flat index into
         # the table or by the row; a function that does neither is not the selection (it only shares a kernel with it)
         try:
             plain, _ = run_on(node, owner, None)
-        except (InterpRaise, AnalysisError):
+        except InterpRaise as exc:
+            if how == 'role':
+                # its result is used as the selection by its caller, and it cannot handle a plain table of numbers
+                judged += 1
+                rep.violation('R-ARGMIN', qual, where, {'raises': exc.exc_name, 'message': exc.msg[:100]},
+                              'a selection', 'table of numbers without NaN', key='argmin raises')
+            continue
+        except AnalysisError:
             continue
         if plain == 1 * 2 + 1:
             name_of = lambda r: r * 2 + 1
